@@ -190,6 +190,35 @@ def exit_rule(repo, mir, reach, inv, res, rule="EXIT"):
     res.check(not re.search(r"panic\s*=\s*[\"']abort", txt), rule, f"{rule}:no-panic-abort-profile", "Cargo.toml sets no panic=abort", "Cargo.toml")
 
 
+def structural_descent(repo, members):
+    """None unless every call between the members passes, in some argument, a value bound by a pattern out of a node of the tree
+    enums (Expr / RegexNode) -- i.e. a child id: then the recursion follows tree edges and its depth is the tree's."""
+    fns = [repo.fn(m) for m in members]
+    if not fns or any(f is None for f in fns):
+        return None
+    names = {f.name for f in fns}
+    n = 0
+    for f in fns:
+        envs = A.collect_envs(f)
+        calls = list(P.find_calls(f.body, names=names))
+        for c in calls:
+            ok = False
+            for a in c["args"]:
+                p = A.resolve(a, envs.get(id(c)))
+                if A.contains(p, lambda t: t[0] == "bind" and P.last(t[1]) in TREE_VARIANTS(repo)):
+                    ok = True
+            if not ok:
+                return None
+            n += 1
+    return f"{n} recursive call(s) in {sorted(members)}, each passing a child bound out of a matched tree node" if n else None
+
+
+def TREE_VARIANTS(repo, _c={}):
+    if "v" not in _c:
+        _c["v"] = {v["name"] for e in ("Expr", "RegexNode") for v in (repo.enum(e) or {}).get("variants", [])}
+    return _c["v"]
+
+
 def rec_rule(repo, mir, reach, res, rule="REC"):
     t = tables.load("recursion")
     rows = {r["head"]: r for r in t["scc"]}
@@ -211,6 +240,13 @@ def rec_rule(repo, mir, reach, res, rule="REC"):
         loc = mir.fns[head].loc() if head in mir.fns else ""
         key = f"{rule}:{head}"
         if r is None:
+            # an untabled recursion that descends structurally -- every recursive call passes a child bound out of the node its own
+            # argument was matched against -- terminates and is of the class already reported as finding REC:DEPTH-TREE
+            why = structural_descent(repo, named)
+            if why is not None:
+                depth.setdefault("DEPTH-TREE", []).append(head)
+                res.ok(rule, key, f"not in tables/recursion.toml; classified by shape as DEPTH-TREE (site of finding REC:DEPTH-TREE): {why}", loc)
+                continue
             res.bad(rule, key, f"recursion not in tables/recursion.toml: SCC {sorted(named)}; its stack depth needs an argument", loc)
             continue
         if r["class"].startswith("DEPTH"):
